@@ -79,8 +79,9 @@ class SmGen(WorldGen):
             self.nw += 1
             bid = "b%d" % self.nb
             self.nb += 1
-            rbp = bids[-1] if bp == "prev" else bp
-            rlast = bids[-1] if last == "prev" else last
+            def real(x):
+                return bids[-1] if x == "prev" else (bids[int(x[1:])] if x.startswith("#") else x)
+            rbp, rlast = real(bp), real(last)
             self.btc[bid] = dict(parent=rbp, height=self.btc[rbp]["height"] + 1)
             self.vtb[wid] = dict(endorsed=e, containing=vid, bop=bid, last=rlast, bctx=self.bpath(rlast, bid))
             if self.btc[bid]["height"] > self.btc[self.btip]["height"]:
@@ -695,6 +696,24 @@ def model_script(lines, results, gens):
     return out, cmp_ids
 
 
+def cached_verdict_case(ra, rb, fa, fb):
+    """the listed finding C01:verdict-0-vs-1-cached-invalid, exactly: verdicts {1, 0}; the instance answering 1 held a
+    failure mark (FAILED_BLOCK/POP/CHILD) on the candidate BEFORE the call; the instance answering 0 held it unvalidated
+    (level below MAYBE, no mark). fa/fb = `flags` answers "<level>:<marks>:<active>"; without them (old corpus
+    witness) only the verdict pair (history instance 1, fresh twin 0) is required."""
+    if {ra, rb} != {"0", "1"}:
+        return False
+    if fa is None or fb is None:
+        return ra == "1" and rb == "0"
+    one, zero = (fa, fb) if ra == "1" else (fb, fa)
+    try:
+        l1, m1 = one.split(":")[0], one.split(":")[1]
+        l0, m0 = zero.split(":")[0], zero.split(":")[1]
+    except Exception:
+        return False
+    return m1 != "-" and m0 == "-" and int(l0) < 3
+
+
 def alt_only(g):
     """histories in which a VBK reorganisation takes applied VTBs off the VBK best chain: SP fork resolution is outside
     the model, only the ALT part of the state (tip, applied count, levels, flags) is compared there"""
@@ -787,7 +806,8 @@ class Script:
         self.lines = []
         self.gens = {}
         self.equal = []       # (id, id, what) answers that must be equal (C01)
-        self.cached_ok = set()  # first id of a verdict pair that is a second encounter of an invalid candidate
+        self.cached_ok = set()  # first id of a verdict pair whose candidate is invalid by construction
+        self.flagids = {}     # that id -> (id of `on A flags c`, id of `on B flags c`) issued right before the call
         self.guard = {}       # first id of an equal pair -> (history prefix, (tip line id, candidate)): SP carve-out
         self.modelled = set() # history prefixes whose ops are all modelled
         self.stats = {}
@@ -1097,7 +1117,17 @@ def sp_tie(g, tips):
     has_child = {g.vbk[v]["parent"] for v in kv if g.vbk[v]["parent"] in kv}
     leaves = [v for v in kv if v not in has_child]
     hmax = max(g.vbk[v]["height"] for v in leaves)
-    return len(leaves) >= 3 or sum(1 for v in leaves if g.vbk[v]["height"] == hmax) >= 2
+    if len(leaves) >= 3 or sum(1 for v in leaves if g.vbk[v]["height"] == hmax) >= 2:
+        return True
+    # the same for the BTC blocks delivered through VTB contexts
+    kb = set()
+    for t in tips:
+        if t in g.alt:
+            kb |= set(g.alt[t]["kb"])
+    bchild = {g.btc[b]["parent"] for b in kb if g.btc[b]["parent"] in kb}
+    bl = [b for b in kb if b not in bchild]
+    bmax = max(g.btc[b]["height"] for b in bl)
+    return len(bl) >= 3 or sum(1 for b in bl if g.btc[b]["height"] == bmax) >= 2
 
 
 def c01_twin_tail(g, sc, r, spf, cands=None, n_cmp=4, shown=None, order=False):
@@ -1123,14 +1153,12 @@ def c01_twin_tail(g, sc, r, spf, cands=None, n_cmp=4, shown=None, order=False):
     both("payouts", "payouttip", guard=(t0, None))
     if order:
         both("ORDERED VTB ids of every VBK block (order of re-execution on an SP reorg)", "vtborder", guard=(t0, None))
-    # Candidates with a planted invalid payload in their ancestry are compared on every encounter. On a SECOND encounter
-    # (A validated the block before: during its history or in an earlier twin round) A answers 1 from the cached
-    # FAILED_POP mark while a fresh twin may answer 0 from the keystone short-cut without validating: exactly that
-    # case (A=1, B=0, second encounter) is reported under CACHED_VERDICT_KEY, every other difference is a violation.
+    # Candidates with a planted invalid payload in their ancestry are compared on every encounter. One instance may hold
+    # a cached failure mark on the candidate (validated earlier in its history, or at connect time because the
+    # candidate's parent was its tip) and answer 1, while the other holds it unvalidated and answers 0 from the keystone
+    # short-cut: exactly that case is reported under CACHED_VERDICT_KEY (see cached_verdict_case), every other
+    # difference is a violation.
     ids = sorted(g.alt, key=lambda a: int(a[1:]))
-    if not hasattr(g, "a_seen"):
-        g.a_seen = set()
-    g.a_seen |= set(shown or ())
     for _ in range(n_cmp):
         c = r.choice(cands) if cands and not r.chance(1, 4) else r.choice(ids)
         if shown is not None and r.chance(1, 3):
@@ -1143,13 +1171,18 @@ def c01_twin_tail(g, sc, r, spf, cands=None, n_cmp=4, shown=None, order=False):
             g.fork_pool = ()
             sc.bump("c01_twin_invalid_candidates")
             sc.bump("c01_twin_invalid_candidate_" + g.bad.get(g.alt[c]["atvs"][-1] if g.alt[c]["atvs"] else None, "other"))
-        second = any(y in g.planted_blocks and y in g.a_seen for y in g.ancestry(c))
-        g.a_seen |= set(g.ancestry(c))
+        invalid_by_construction = any(y in g.planted_blocks for y in g.ancestry(c))
         g.emit("show A %s" % c)
         g.emit("show B %s" % c)
         t1 = tipline()
-        if second:
-            sc.cached_ok.add("%s_c%d" % (pre, len(g.lines) + 1))
+        if invalid_by_construction:
+            # validity marks of the candidate on both instances right before the call (information for the
+            # classification of a 1-vs-0 verdict pair, not compared)
+            g.emit("on A flags %s" % c)
+            g.emit("on B flags %s" % c)
+            va = "%s_c%d" % (pre, len(g.lines) + 1)
+            sc.cached_ok.add(va)
+            sc.flagids[va] = ("%s_c%d" % (pre, len(g.lines) - 1), "%s_c%d" % (pre, len(g.lines)))
         both("comparePopScore verdict against candidate " + c, "cmp", c, guard=(t1, c))
         t2 = tipline()
         both("POP state after comparing with " + c, "obs", "pop", guard=(t2, None))
@@ -1178,35 +1211,22 @@ def gen_c01_multivtb(ctx, sc, n_hist):
         base_b = g.best_known_btc(a)
         pool = g.vtb_pool(g.alt[a]["kv"]) or [g.vtip]
         na, nb = r.range(1, 2), r.range(2, 3)
-        specs, owner = [], []
-        # the VTBs of fork a1 (independent of each other: each connects to the BTC block the common ancestry knows)
-        slots = ["A"] * na + ["B"] * nb
+        # The BTC blocks of proof form ONE chain (no BTC fork, hence no BTC tie): VTB i is mined on top of VTB i-1's
+        # block of proof. A's VTBs and B's first one start their BTC context after the block the common ancestry knows
+        # (they bring all the blocks in between themselves); every later B VTB starts after the previous B VTB's block
+        # of proof, i.e. it connects only through that block.
+        owner = ["A"] * na + ["B"] * nb
         if r.chance(1, 2):
-            r.shuffle(slots)
-        first_b = True
-        for sl in slots:
-            if sl == "A":
-                specs.append((r.choice(pool), base_b, base_b))
-            elif first_b:
-                specs.append((r.choice(pool), base_b, base_b))
-                first_b = False
+            r.shuffle(owner)
+        fixed, prevb = [], None
+        for i, o in enumerate(owner):
+            bp = base_b if i == 0 else "prev"
+            if o == "A" or prevb is None:
+                fixed.append((r.choice(pool), bp, base_b))
             else:
-                specs.append((r.choice(pool), "prev_b", "prev_b"))
-            owner.append(sl)
-        # "prev" must refer to the previous B VTB: keep the B run contiguous in the tx list when A VTBs are interleaved
-        fixed, lastb = [], None
-        for i, (e, bp, la) in enumerate(specs):
-            if bp == "prev_b":
-                if i > 0 and owner[i - 1] == "B":
-                    fixed.append((e, "prev", "prev"))
-                else:
-                    fixed.append(None)
-            else:
-                fixed.append((e, bp, la))
-        if any(x is None for x in fixed):
-            # fall back to the contiguous layout
-            owner = ["A"] * na + ["B"] * nb
-            fixed = [(r.choice(pool), base_b, base_b) for _ in range(na + 1)] + [(r.choice(pool), "prev", "prev") for _ in range(nb - 1)]
+                fixed.append((r.choice(pool), bp, "#%d" % prevb))
+            if o == "B":
+                prevb = i
         ws = g.make_mvtb(fixed)
         c = g.vtb[ws[0]]["containing"]
         wa = [w for w, o in zip(ws, owner) if o == "A"]
@@ -1472,6 +1492,7 @@ def run_check(ctx, pid):
         sc.lines = list(ctx.replay["script"])
         sc.equal = [tuple(e) for e in ctx.replay.get("equal", [])]
         sc.cached_ok = set(ctx.replay.get("cached_ok", []))
+        sc.flagids = {a: tuple(v) for a, v in ctx.replay.get("flagids", {}).items()}
         replay_model = ctx.replay.get("model")
     else:
         replay_model = None
@@ -1482,6 +1503,7 @@ def run_check(ctx, pid):
                 sc.lines += _reid(obj["script"], tag)
                 sc.equal += [(tag + a, tag + b, w) for a, b, w in obj.get("equal", [])]
                 sc.cached_ok |= {tag + a for a in obj.get("cached_ok", [])}
+                sc.flagids.update({tag + a: (tag + x, tag + y) for a, (x, y) in obj.get("flagids", {}).items()})
                 sc.bump("corpus")
         if pid == "C02":
             if quick:
@@ -1574,12 +1596,15 @@ def run_check(ctx, pid):
                 ncarved += 1
                 continue
         neq += 1
-        if ra != rb and a in sc.cached_ok and ra == "1" and rb == "0" and what.startswith("comparePopScore verdict"):
+        if ra != rb and a in sc.cached_ok and what.startswith("comparePopScore verdict") and \
+                cached_verdict_case(ra, rb, *[results.get(x) for x in sc.flagids.get(a, (None, None))]):
             if not pending["cachedverdict"]:
                 pre = a.rsplit("_", 1)[0]
                 pending["cachedverdict"].append(({"kind": "ops", "script": history_of(lines, a), "at": [a, b], "A": ra, "B": rb,
                                                   "equal": [[x, y, w] for x, y, w in sc.equal if x.rsplit("_", 1)[0] == pre],
                                                   "cached_ok": sorted(x for x in sc.cached_ok if x.rsplit("_", 1)[0] == pre),
+                                                  "flagids": {x: list(v) for x, v in sc.flagids.items() if x.rsplit("_", 1)[0] == pre},
+                                                  "flags": [results.get(x) for x in sc.flagids.get(a, ())],
                                                   "key": CACHED_VERDICT_KEY,
                                                   "what": "verdict 1 (cached FAILED_POP) vs 0 (keystone short-cut, not validated) "
                                                           "against an invalid candidate: " + what}, False))
@@ -1599,6 +1624,8 @@ def run_check(ctx, pid):
             dres, _, _ = run_script(hbin, det, ctx.work, tag=pid + "-det", timeout=600)
             pending["equal"].append(({"kind": "ops", "script": hist,
                                       "equal": [[x, y, w] for x, y, w in sc.equal if x.rsplit("_", 1)[0] == pre],
+                                      "cached_ok": sorted(x for x in sc.cached_ok if x.rsplit("_", 1)[0] == pre),
+                                      "flagids": {x: list(v) for x, v in sc.flagids.items() if x.rsplit("_", 1)[0] == pre},
                                       "at": [a, b], "A": dres.get(a, ra)[:3000], "B": dres.get(b, rb)[:3000],
                                       "what": "instances with the same active chain differ: " + what}, False))
     # 4. correspondence with the model
